@@ -671,3 +671,10 @@ func key(s *State) string {
 	s.Shape = hex.EncodeToString(d[:])
 	return s.Model.String() + "\n" + s.Shape
 }
+
+// ShapeDigest returns the digest used in state keys for the router's current tree.
+func ShapeDigest(f *fox.Router) string {
+	st := &State{Model: Model{}, Shape: fox.VerifShape(f)}
+	key(st)
+	return st.Shape
+}
